@@ -2,8 +2,8 @@
 from props import COMMON_ASSUME
 from vlib import Stage
 
-RULE = ('complete enumeration of all 2^32 float bit patterns through the four one-argument stepping functions; n-step overloads (n in {0,1,2,3,64,random<=200}), floatDistance and the vec1-4 overloads on one '
-        'float out of every 2^12 plus every pattern within 70 steps of a binade boundary / zero / max, on every double binade boundary (both signs x 2047 exponent fields x 16 mantissas) and on random '
+RULE = ('complete enumeration of all 2^32 float bit patterns through the four one-argument stepping functions; n-step overloads (n in {0,1,2,3,64,random<=200}), floatDistance and the vec1-4 overloads on every '
+        'float within 70 steps of a binade boundary / zero / max plus one float out of every 2^12 (quick) or 2^6 (thorough), on every double binade boundary (both signs x 2047 exponent fields x 16 mantissas) and on random '
         'structured doubles; random pairs at 0..66 steps, mirrored, unrelated or up to 2^30 steps apart for the distance; comparisons: 16 pairs per case placed at maxULPs-3..maxULPs+3 steps '
         '(resp. |x-y| at epsilon-2ulp..epsilon+2ulp, 0, epsilon/2, 2 epsilon) around +-0, subnormals, binade boundaries, +-max and values straddling zero, through the scalar, vec1-4, 9 matrix-shape and '
         'quaternion overloads; oracle = integer arithmetic on the IEEE order (+0/-0 merged) resp. the exact position of |x-y| relative to epsilon (TwoSum); a stepping case is non-trivial when x is '
